@@ -243,9 +243,10 @@ namespace RecInt
         if (b.isPositive()) {
             mod_n(a.Value,b.Value,c.Value);
         } else {
-            mod_n(a.Value,(-b).Value,c.Value);
+            const ruint<K> n(c.Value); // a may be the same object as c
+            mod_n(a.Value,(-b).Value,n);
             if (a.Value != 0u)
-                sub(a.Value,c.Value,a.Value); // c - ( -b mod c)
+                sub(a.Value,n,a.Value); // c - ( -b mod c)
         }
     }
 
